@@ -868,6 +868,39 @@ def step (c : Client) (line : String) : Client × String :=
     | none => (c, "bad-op")
   | _ => (c, "bad-op")
 
-def driver (lines : List String) : List String := runLines step (clientInit "aa") lines
+/-! ## a process: several wormholes living in one Python process
+
+```
+proc <side0> <side1> …             fresh clients 0, 1, … (one real `wormhole.create()` each, all in the same process)
+at <i> <any line above>            that operation on client i
+```
+Every `Boss` — with its two strict-order buffers —, `Mailbox`, `Send`, `Order`, `Receive` and observer is an object of
+its own: an operation on one wormhole of the process is `step` on that client and touches nothing else
+(`Props.C03.process_isolation`).  On the real code the harness performs the same lines on real clients created in one
+process; after each `at` line it also reports which OTHER clients' buffers changed (the model never reports any). -/
+
+structure Proc where
+  one : Client            -- the client of the plain (single-client) lines
+  many : List Client      -- the clients made by `proc …`, addressed by `at <i> …`
+
+def procInit : Proc := { one := clientInit "aa", many := [] }
+
+/-- `at <i> <line>`: `step` on client `i`, the others stay as they are -/
+def procAt (many : List Client) (i : Nat) (line : String) : List Client × String :=
+  match many[i]? with
+  | some c => let r := step c line; (many.set i r.1, r.2)
+  | none => (many, "bad-op")
+
+def pstep (p : Proc) (line : String) : Proc × String :=
+  match tokens line with
+  | ["reset"] => (procInit, "ok")
+  | "proc" :: sides => ({ p with many := sides.map clientInit }, "ok")
+  | "at" :: i :: rest =>
+    match i.toNat? with
+    | some i => let r := procAt p.many i (" ".intercalate rest); ({ p with many := r.1 }, r.2)
+    | none => (p, "bad-op")
+  | _ => let r := step p.one line; ({ p with one := r.1 }, r.2)
+
+def driver (lines : List String) : List String := runLines pstep procInit lines
 
 end WV.C03
